@@ -295,19 +295,21 @@ class _AndFilterToSqlWhere:
             return None
         base_subquery = select(sql.Note.id).join(sql.LinkLink).join(sql.Link)
         for link_filter in self.and_filter.link_filters:
+            # A negated link filter is the complement of the positive one, so
+            # ONLY the membership test is negated (NOT the conditions that say
+            # which links point at the page).
             if link_filter.negated:
                 in_op = sql.Note.id.not_in  # type: ignore[union-attr]
-                like_op = sql.Link.name.not_like  # type: ignore[attr-defined]
             else:
                 in_op = sql.Note.id.in_  # type: ignore[union-attr]
-                like_op = sql.Link.name.like  # type: ignore[attr-defined]
+            like_op = sql.Link.name.like  # type: ignore[attr-defined]
 
             link_name = link_filter.link
             notes_in_file = _get_notes_in_file(self.session, link_name)
             subquery = base_subquery.where(
                 or_(
                     sql.Link.name == link_name,
-                    like_op(f"{link_name}#%"),
+                    like_op(f"{_escape_like(link_name)}#%", escape="\\"),
                     *_global_link_conds(notes_in_file),
                     *_ref_link_conds(notes_in_file),
                     *_zid_link_conds(notes_in_file),
